@@ -155,6 +155,54 @@ ASSUMPTIONS += [
     "argument of the look-up is type(obj)",
 ]
 
+# R10.5 second instance (what the duplicate test compares) and
+# rules/c10_alias.py (R10.22)
+EXPLANATION += (
+    "  R10.5 also decides WHAT the repeated-base test compares "
+    "(`Class.compute_mro:duplicate-test-compares-identities`): the set whose "
+    "size is compared with the number of bases must be built from the bases "
+    "themselves or from id(base) - the identities CPython's duplicate-base "
+    "test compares (set(x), {b for b in x}, {id(b) for b in x}, "
+    "set(map(id, x)), dict.fromkeys/Counter over the same).  A set built from "
+    "a projection of the base - an attribute chain (`base.full_name`, "
+    "`base.name`), getattr(base, <const>), str/repr/type of it - is a "
+    "violation: two distinct classes can share it (classes made by two "
+    "factories, a rebound class name), so a legal class would get an "
+    "mro-error.  Any other key expression (a conditional, a helper call) is an "
+    "analysis error.  R10.22 (rules/c10_alias.py) rows consumed by the in-place "
+    "merge are private copies: a module-wide flow- and context-insensitive "
+    "inclusion-based points-to analysis of pytype/pytd/mro.py (allocation sites "
+    "with one `elements` field; parameters receive the arguments of all "
+    "module-local calls, publicly callable functions additionally a placeholder "
+    "for the caller's objects; comprehension variables are scoped) computes "
+    "which list objects can be the operand of a destructive operation "
+    "(`del x[i]`, pop/popitem/popleft/remove/clear, slice assignment) and which "
+    "are kept (reachable from a dict, an instance of a module-local class such "
+    "as the MROError payload, an attribute load, a caller-owned object the "
+    "module stores into, a module-level variable, a default argument).  One "
+    "instance per destructive operation and one per keeper that holds "
+    "sequences; a mutable list that is both is a violation (the memoised MRO "
+    "would be emptied by the first merge it takes part in), tuples are "
+    "immutable and can be neither.  The rows external callers pass to a public "
+    "consuming function are that function's contract and are listed in the "
+    "facts, not judged.  Rows that were handed to code outside the module and "
+    "then shrunk are an analysis error, as is any statement or expression form "
+    "the points-to model does not cover (match, generators, map/filter/next, "
+    "calls through variables).")
+ASSUMPTIONS += [
+    "R10.5: no attribute of a class object is unique per object; the only "
+    "injective keys are the object itself (abstract classes hash and compare "
+    "by identity) and id(object)",
+    "R10.22: the analysis is flow-insensitive: a list that is shrunk in place "
+    "before it is stored in a keeper is reported as well (no such site today); "
+    "it is confined to pytype/pytd/mro.py: the rows that compute_mro, the "
+    "rewrite engine's SimpleClass.mro and the template merges in "
+    "abstract/_base.py and pytd/visitors.py pass in are the callers' business "
+    "(listed as `callers_rows_consumed_by_contract`); in-place reordering "
+    "(sort/reverse) and growth (append/extend) of a kept list are not counted "
+    "as destructive; a dict is always treated as a keeper even when it never "
+    "leaves the function that builds it",
+]
 MRO = "pytype/pytd/mro.py"
 MIXIN = "pytype/abstract/class_mixin.py"
 REWRITE = "pytype/rewrite/abstract/classes.py"
@@ -2517,6 +2565,36 @@ VARIANTS = [
     {"name": "twin-duplicate-test-set-call", "rule": "R10.5", "file": MIXIN, "expect": "silent",
      "old": "if len({id(base) for base in base_classes}) != len(base_classes):",
      "new": "if len(base_classes) > len(set(id(b) for b in base_classes)):"},
+    {"name": "seeded-C10-r3m1", "rule": "R10.5", "patch": "seeded/C10-r3m1/patch.diff",
+     "expect": "fire"},
+    {"name": "duplicate-test-compares-simple-names", "rule": "R10.5", "file": MIXIN, "expect": "fire",
+     "old": "if len({id(base) for base in base_classes}) != len(base_classes):",
+     "new": "if len(set(b.name for b in base_classes)) < len(base_classes):"},
+    {"name": "duplicate-test-compares-str-of-base", "rule": "R10.5", "file": MIXIN, "expect": "fire",
+     "old": "if len({id(base) for base in base_classes}) != len(base_classes):",
+     "new": "if len(base_classes) != len(set(map(str, base_classes))):"},
+    {"name": "duplicate-test-counter-over-getattr-name", "rule": "R10.5", "file": MIXIN, "expect": "fire",
+     "old": "if len({id(base) for base in base_classes}) != len(base_classes):",
+     "new": "if len(collections.Counter(getattr(c, 'full_name') for c in base_classes)) != len(base_classes):"},
+    {"name": "duplicate-test-in-helper-compares-type-of-base", "rule": "R10.5", "expect": "fire",
+     "edits": [(MIXIN, _DUP_OLD, "    _check_no_repeated_base(bases)\n"),
+               (MIXIN, _HELPER_ANCHOR,
+                "def _check_no_repeated_base(direct_bases) -> None:\n"
+                "  classes = [b for b in direct_bases if isinstance(b, Class)]\n"
+                "  if len({b.cls.full_name for b in classes}) != len(classes):\n"
+                "    raise mro.MROError([classes])\n\n\n" + _HELPER_ANCHOR)]},
+    {"name": "duplicate-test-key-through-unknown-helper", "rule": "R10.5", "file": MIXIN, "expect": "error",
+     "old": "if len({id(base) for base in base_classes}) != len(base_classes):",
+     "new": "if len({_base_key(base) for base in base_classes}) != len(base_classes):"},
+    {"name": "twin-duplicate-test-set-of-bases", "rule": "R10.5", "file": MIXIN, "expect": "silent",
+     "old": "if len({id(base) for base in base_classes}) != len(base_classes):",
+     "new": "if len(set(base_classes)) != len(base_classes):"},
+    {"name": "twin-duplicate-test-map-id", "rule": "R10.5", "file": MIXIN, "expect": "silent",
+     "old": "if len({id(base) for base in base_classes}) != len(base_classes):",
+     "new": "if len(frozenset(map(id, base_classes))) < len(base_classes):"},
+    {"name": "twin-duplicate-test-dict-keyed-by-id", "rule": "R10.5", "file": MIXIN, "expect": "silent",
+     "old": "if len({id(base) for base in base_classes}) != len(base_classes):",
+     "new": "if len({id(c): c for c in base_classes}) != len(base_classes):"},
     # R10.6
     {"name": "candidate-is-last-element", "rule": "R10.6", "file": MRO, "expect": "fire",
      "old": "      cand = seq[0]", "new": "      cand = seq[-1]"},
